@@ -2,7 +2,7 @@
 // list (C11: an unchanged hotspot rule keeps its very controller - per-parameter token / in-flight tables with it; a changed rule
 // gets a new controller built over the ParamsMetric of the first statistics-reusable old controller). Same construction as units
 // flow_rebuild / cb_rebuild; body extracted from the current source on every run. hotspot's `calculate_reuse_index_for` is
-// ASSUMED (no Kani obligation: hotspot rule equality walks a HashMap override table, out of CBMC's reach).
+// extracted and proved as well; only rule equality itself is uninterpreted (no Kani obligation: hotspot rule equality walks a HashMap override table, out of CBMC's reach).
 use vstd::prelude::*;
 verus! {
 pub mod tr {
@@ -33,7 +33,14 @@ impl Controller {
     pub uninterp spec fn rule_spec(&self) -> Arc<Rule>;
     pub uninterp spec fn stat_spec(&self) -> Arc<ParamsMetric>;
     #[verifier::external_body] pub fn metric(&self) -> (r: &Arc<ParamsMetric>) ensures *r == self.stat_spec() { unimplemented!() }
+    #[verifier::external_body] pub fn rule(&self) -> (r: &Arc<Rule>) ensures *r == self.rule_spec() { unimplemented!() }
 }
+/// `old_rule == r` (PartialEq of Arc<Rule> = PartialEq of Rule)
+#[verifier::external_body] pub fn rules_equal(a: &Arc<Rule>, b: &Arc<Rule>) -> (r: bool) ensures r == rule_eq(*a, *b) { unimplemented!() }
+/// `old_rule.is_stat_reusable(r)`
+#[verifier::external_body] pub fn is_stat_reusable(a: &Arc<Rule>, b: &Arc<Rule>) -> (r: bool) ensures r == stat_reusable(*a, *b) { unimplemented!() }
+/// stands for `.iter().enumerate()` (no Verus support): the idx-th element by reference
+#[verifier::external_body] pub fn nth_tc(v: &Vec<AC>, i: usize) -> (r: &AC) requires i < v.len() ensures *r == v@[i as int] { &v[i] }
 /// the generator table is only read here (sequential execution: nobody registers a generator during a reload)
 pub uninterp spec fn table(k: ControlStrategy) -> Option<Generator>;
 /// a generator is a function of its arguments (the default ones are `XController::new(rule)` / `::with_stat(rule, stat)`)
@@ -73,13 +80,21 @@ pub proof fn l_reuse_index(r: Arc<Rule>, old: Seq<AC>, k: int, bound: int)
     decreases old.len() - k
 { if k < old.len() && k < bound && !stat_reusable(old[k].rule_spec(), r) { l_reuse_index(r, old, k + 1, bound); } }
 
-/// ASSUMED contract (same text as the flow / circuit-breaker functions, for which Kani proves it on short lists; not proved for hotspot):
-/// (first equal index or MAX, first statistics-reusable index before it or MAX)
-#[verifier::external_body]
-pub fn calculate_reuse_index_for(r: &Arc<Rule>, old_res_tcs: &Vec<AC>) -> (res: (usize, usize))
-    ensures res.0 as int == eq_index(*r, old_res_tcs@, 0),
-            res.1 as int == reuse_index(*r, old_res_tcs@, 0, eq_index(*r, old_res_tcs@, 0))
-{ unimplemented!() }
+/// characterisation => recursive definition (used by the extracted calculate_reuse_index_for)
+pub proof fn l_eq_char(r: Arc<Rule>, old: Seq<AC>, k: int, e: int)
+    requires 0 <= k <= e <= old.len(), old.len() < MAX,
+             forall|j: int| #![auto] k <= j < e ==> !rule_eq(old[j].rule_spec(), r),
+             e < old.len() ==> rule_eq(old[e].rule_spec(), r),
+    ensures eq_index(r, old, k) == (if e < old.len() { e } else { MAX as int })
+    decreases e - k
+{ if k < e { l_eq_char(r, old, k + 1, e); } }
+pub proof fn l_reuse_char(r: Arc<Rule>, old: Seq<AC>, k: int, bound: int, e: int)
+    requires 0 <= k, old.len() < MAX, k <= e,
+             forall|j: int| #![auto] k <= j < e && j < old.len() && j < bound ==> !stat_reusable(old[j].rule_spec(), r),
+             (e < old.len() && e < bound && stat_reusable(old[e].rule_spec(), r)) || e >= old.len() || e >= bound,
+    ensures reuse_index(r, old, k, bound) == (if e < old.len() && e < bound { e } else { MAX as int })
+    decreases e - k
+{ if k < e && k < old.len() && k < bound { l_reuse_char(r, old, k + 1, bound, e); } }
 
 /// what handling one rule does to (new list, remaining old list)
 pub open spec fn step(res: &String, rule: Arc<Rule>, st: (Seq<AC>, Seq<AC>)) -> (Seq<AC>, Seq<AC>) {
@@ -150,6 +165,51 @@ use tr::*;
 use std::sync::Arc;
 
 pub exec static GEN_FUN_MAP: GenMapLock ensures true { GenMapLock { p: 0 } }
+
+// ---- extracted from core/hotspot/rule_manager.rs (extract-fn) ----
+fn calculate_reuse_index_for(r: &Arc<Rule>, old_res_tcs: &Vec<Arc<Controller>>) -> (res: (usize, usize))
+    requires
+        old_res_tcs@.len() < MAX,
+    ensures
+        res.0 as int == eq_index(*r, old_res_tcs@, 0),
+        res.1 as int == reuse_index(*r, old_res_tcs@, 0, eq_index(*r, old_res_tcs@, 0)),
+{
+    // the index of equivalent rule in old traffic shaping controller slice
+    let mut eq_idx = usize::MAX;
+    // the index of statistic reusable rule in old traffic shaping controller slice
+    let mut reuse_stat_idx = usize::MAX;
+
+    let mut nxt: usize = 0; while nxt < old_res_tcs.len() 
+        invariant_except_break
+            eq_idx == MAX,
+
+        invariant
+            nxt <= old_res_tcs.len(),
+            old_res_tcs@.len() < MAX,
+            eq_idx != MAX ==> eq_idx < nxt,
+            forall|j: int| #![auto] 0 <= j < nxt && (eq_idx == MAX || j < eq_idx) ==> !rule_eq(old_res_tcs@[j].rule_spec(), *r),
+            reuse_stat_idx == MAX ==> forall|j: int| #![auto] 0 <= j < nxt && (eq_idx == MAX || j < eq_idx) ==> !stat_reusable(old_res_tcs@[j].rule_spec(), *r),
+            reuse_stat_idx != MAX ==> reuse_stat_idx < nxt && (eq_idx == MAX || reuse_stat_idx < eq_idx) && stat_reusable(old_res_tcs@[reuse_stat_idx as int].rule_spec(), *r) && forall|j: int| #![auto] 0 <= j < reuse_stat_idx ==> !stat_reusable(old_res_tcs@[j].rule_spec(), *r),
+        ensures
+            eq_idx != MAX ==> eq_idx < old_res_tcs.len() && rule_eq(old_res_tcs@[eq_idx as int].rule_spec(), *r),
+            eq_idx == MAX ==> nxt == old_res_tcs.len(),
+        decreases old_res_tcs.len() - nxt,
+    { let idx = nxt; let old_tc = nth_tc(old_res_tcs, idx); nxt += 1;
+        let old_rule = old_tc.rule();
+        if rules_equal(old_rule, r) {
+            // break if there is equivalent rule
+            eq_idx = idx;
+            break;
+        }
+        // search the index of first stat reusable rule
+        if reuse_stat_idx == usize::MAX && is_stat_reusable(old_rule, r) {
+            reuse_stat_idx = idx;
+        }
+    }
+    proof { let e = if eq_idx == MAX { old_res_tcs@.len() as int } else { eq_idx as int }; l_eq_char(*r, old_res_tcs@, 0, e); let bound = eq_index(*r, old_res_tcs@, 0); let q = if reuse_stat_idx == MAX { old_res_tcs@.len() as int } else { reuse_stat_idx as int }; l_reuse_char(*r, old_res_tcs@, 0, bound, q); }
+        (eq_idx, reuse_stat_idx)
+}
+
 
 // ---- extracted from core/hotspot/rule_manager.rs (extract-fn) ----
 pub fn build_resource_traffic_shaping_controller(
